@@ -166,7 +166,8 @@ Location locate_hunk(const std::vector<Line>& content, const Hunk& hunk, bool ig
         }
 
         // Then look for it in the negative direction
-        for (LineNumber line = offset_guess - 1; line >= min_line; --line) {
+        // There is nothing to find past the end of the file, however large the line number in the patch is.
+        for (LineNumber line = std::min(offset_guess, static_cast<LineNumber>(content.size())) - 1; line >= min_line; --line) {
             if (hunk_matches_starting_from_line(line))
                 return { line, fuzz, line - offset_guess };
         }
